@@ -1,2 +1,18 @@
-import BumpverVerif.Model.Basic
-import BumpverVerif.Model.LexId
+/- root of the library: every claimed property's theorem module (so that `lake build BumpverVerif` builds all proofs) -/
+import BumpverVerif.Props.C01
+import BumpverVerif.Props.C02
+import BumpverVerif.Props.C03
+import BumpverVerif.Props.C04
+import BumpverVerif.Props.C05
+import BumpverVerif.Props.C06
+import BumpverVerif.Props.C07
+import BumpverVerif.Props.C08
+import BumpverVerif.Props.C09
+import BumpverVerif.Props.C10
+import BumpverVerif.Props.C11
+import BumpverVerif.Props.C12
+import BumpverVerif.Props.C13
+import BumpverVerif.Props.C14
+import BumpverVerif.Props.C15
+import BumpverVerif.Props.C16
+import BumpverVerif.Props.C17
